@@ -7,7 +7,7 @@ From Coq Require Import Reals ZArith List Bool Lra Lia SpecFloat.
 From Coquelicot Require Import Coquelicot.
 From Sky Require Import Result PyList Num NumR G_grid M_Grid M_GridSF P_Grid P_GridInterp P_GridSF
   P_GridCall P_GridLocal P_GridIrr P_GridExt P_GridCache
-  M_GridPdf P_GridHist P_GridPdf P_GridBelow.
+  M_GridPdf P_GridHist P_GridPdf P_GridBelow P_GridMember P_GridEnd P_GridAuto.
 Import ListNotations.
 Open Scope R_scope.
 
@@ -136,6 +136,40 @@ Theorem C15_irregular_nearest : forall (erf : R -> R) (grid : list R) (v : R),
              forall y, In y grid -> Rabs (ne - v) <= Rabs (y - v).
 Proof. exact irregular_nearest. Qed.
 Print Assumptions C15_irregular_nearest.
+
+(* membership in exact arithmetic: for the stored grid origin + i*spacing, i = 0..m, and any
+   value in its range the rounded values ARE elements of the stored grid *)
+Theorem C15_rounded_values_are_members : forall (erf : R -> R) (a b d : Z) (m : nat) (v : R),
+  (0 <= d)%Z -> (0 < b)%Z ->
+  let g := {| g_lb := IZR a / IZR (10 ^ d); g_delta := IZR b / IZR (10 ^ d); g_dec := d |} in
+  let pts := map (fun i => IZR a / IZR (10 ^ d) + IZR (0 + Z.of_nat i) * (IZR b / IZR (10 ^ d))) (seq 0 (S m)) in
+  let last := g_lb g + IZR (Z.of_nat m) * g_delta g in
+  g_lb g <= v -> v <= last ->
+  In (round_lower (RNum erf) g v) pts /\
+  In (round_nearest (RNum erf) g v) pts /\
+  (v < last - 5 / 10000000000 * g_delta g -> In (round_upper (RNum erf) g v) pts).
+Proof. exact regular_rounded_values_are_members. Qed.
+Print Assumptions C15_rounded_values_are_members.
+
+(* ParameterGrid(grid) with delta=None: delta = mean of the differences *)
+Theorem C15_make_grid_auto_delta_exact : forall (erf : R -> R) (a b d : Z) (n : nat), (0 <= d <= 16)%Z -> (0 < b)%Z ->
+  let pts := map (fun i => IZR a / IZR (10 ^ d) + IZR (0 + Z.of_nat i) * (IZR b / IZR (10 ^ d))) (seq 0 (S (S n))) in
+  mean_diff (RNum erf) pts = IZR b / IZR (10 ^ d) /\
+  pg_make_auto (RNum erf) d pts = Ok {| pg_desc := {| g_lb := IZR a / IZR (10 ^ d); g_delta := IZR b / IZR (10 ^ d); g_dec := d |}; pg_grid := pts |}.
+Proof.
+  intros erf a b d n Hd Hb pts.
+  exact (conj (mean_diff_of_regular_points erf a b d n (proj1 Hd)) (make_grid_auto_exact erf a b d n Hd Hb)).
+Qed.
+Print Assumptions C15_make_grid_auto_delta_exact.
+
+Theorem C15_irregular_extend_increasing : forall (erf : R -> R) (grid : list R) (g0 g1 : R) (rest : list R),
+  grid = g0 :: g1 :: rest ->
+  (fix incr (l : list R) : Prop := match l with a :: ((b :: _) as r) => a < b /\ incr r | _ => True end) grid ->
+  exists lo hi, irr_extend (RNum erf) grid = Ok (lo :: grid ++ [hi]) /\ lo = g0 - (g1 - g0) /\
+    (fix incr (l : list R) : Prop := match l with a :: ((b :: _) as r) => a < b /\ incr r | _ => True end)
+      (lo :: grid ++ [hi]).
+Proof. exact irregular_extend_increasing. Qed.
+Print Assumptions C15_irregular_extend_increasing.
 
 (* ---- interpolation, exact arithmetic *)
 Theorem C15_linear_reproduces_grid_points : forall (erf : R -> R) (a b d n : Z) (F : R -> R),
@@ -331,6 +365,86 @@ Proof.
   exact (parabola_history_no_error erf g Fm layout calls xofs n None (or_introl eq_refl) I).
 Qed.
 Print Assumptions C15_parabola_history_no_error.
+
+(* ---- end to end: every entry of every result of every history *)
+Theorem C15_linear_history_gradient_is_derivative : forall (erf : R -> R) (a b d : Z) (Fm : manifold)
+    (layout : Z -> list (nat * nat)) (calls : list (Z * list R)) (xofs : list (nat -> R)),
+  (0 <= d)%Z -> (0 < b)%Z ->
+  let g := {| g_lb := IZR a / IZR (10 ^ d); g_delta := IZR b / IZR (10 ^ d); g_dec := d |} in
+  (forall k id xs xof, nth_error calls k = Some (id, xs) -> nth_error xofs k = Some xof ->
+     forall s e, In (s, e) (layout id) -> bcast xs s = Ok (xof s) /\ g_lb g <= xof s) ->
+  forall k id xs xof v gr j s e (n : Z),
+    nth_error calls k = Some (id, xs) -> nth_error xofs k = Some xof ->
+    nth_error (lin_run (RNum erf) g Fm layout None calls) k = Some (Ok (v, gr)) ->
+    nth_error (layout id) j = Some (s, e) ->
+    (0 <= n)%Z ->
+    IZR n + 5 / 10000000000 < (xof s - g_lb g) / g_delta g < IZR n + 1 - 5 / 10000000000 ->
+    exists vj gj, nth_error v j = Some vj /\ nth_error gr j = Some gj /\
+      vj = lin_value1 (RNum erf) g (fun t => Fm id t s e) (xof s) /\
+      is_derive (lin_value1 (RNum erf) g (fun t => Fm id t s e)) (xof s) gj.
+Proof.
+  intros erf a b d Fm layout calls xofs Hd Hb g.
+  exact (linear_history_gradient_is_derivative erf a b d Hd Hb Fm layout calls xofs).
+Qed.
+Print Assumptions C15_linear_history_gradient_is_derivative.
+
+Theorem C15_linear_history_exact_for_lines : forall (erf : R -> R) (a b d : Z) (Fm : manifold)
+    (layout : Z -> list (nat * nat)) (P Q : Z -> nat -> nat -> R) (calls : list (Z * list R)) (xofs : list (nat -> R)),
+  (0 <= d)%Z -> (0 < b)%Z ->
+  let g := {| g_lb := IZR a / IZR (10 ^ d); g_delta := IZR b / IZR (10 ^ d); g_dec := d |} in
+  (forall id t s e, Fm id t s e = P id s e * t + Q id s e) ->
+  (forall k id xs xof, nth_error calls k = Some (id, xs) -> nth_error xofs k = Some xof ->
+     forall s e, In (s, e) (layout id) -> bcast xs s = Ok (xof s) /\ g_lb g <= xof s) ->
+  forall k id xs xof v gr j s e,
+    nth_error calls k = Some (id, xs) -> nth_error xofs k = Some xof ->
+    nth_error (lin_run (RNum erf) g Fm layout None calls) k = Some (Ok (v, gr)) ->
+    nth_error (layout id) j = Some (s, e) ->
+    nth_error v j = Some (Fm id (xof s) s e) /\ nth_error gr j = Some (P id s e).
+Proof.
+  intros erf a b d Fm layout P Q calls xofs Hd Hb g.
+  exact (linear_history_exact_for_lines erf a b d Hd Hb Fm layout P Q calls xofs).
+Qed.
+Print Assumptions C15_linear_history_exact_for_lines.
+
+Theorem C15_parabola_history_gradient_is_derivative : forall (erf : R -> R) (a b d : Z) (Fm : manifold)
+    (layout : Z -> list (nat * nat)) (calls : list (Z * list R)) (xofs : list (nat -> R)),
+  (0 <= d)%Z -> (0 < b)%Z ->
+  let g := {| g_lb := IZR a / IZR (10 ^ d); g_delta := IZR b / IZR (10 ^ d); g_dec := d |} in
+  (forall k id xs xof, nth_error calls k = Some (id, xs) -> nth_error xofs k = Some xof ->
+     forall s e, In (s, e) (layout id) -> bcast xs s = Ok (xof s)) ->
+  forall k id xs xof v gr j s e (m : Z),
+    nth_error calls k = Some (id, xs) -> nth_error xofs k = Some xof ->
+    nth_error (par_run (RNum erf) g Fm layout None calls) k = Some (Ok (v, gr)) ->
+    nth_error (layout id) j = Some (s, e) ->
+    (1 <= m)%Z ->
+    IZR m - 1 / 2 + 5 / 10000000000 < (xof s - g_lb g) / g_delta g < IZR m + 1 / 2 - 5 / 10000000000 ->
+    exists vj gj, nth_error v j = Some vj /\ nth_error gr j = Some gj /\
+      vj = par_value1 (RNum erf) g (fun t => Fm id t s e) (xof s) /\
+      is_derive (par_value1 (RNum erf) g (fun t => Fm id t s e)) (xof s) gj.
+Proof.
+  intros erf a b d Fm layout calls xofs Hd Hb g.
+  exact (parabola_history_gradient_is_derivative erf a b d Hd Hb Fm layout calls xofs).
+Qed.
+Print Assumptions C15_parabola_history_gradient_is_derivative.
+
+Theorem C15_parabola_history_exact_for_quadratics : forall (erf : R -> R) (a b d : Z) (Fm : manifold)
+    (layout : Z -> list (nat * nat)) (C2 C1 C0 : Z -> nat -> nat -> R) (calls : list (Z * list R)) (xofs : list (nat -> R)),
+  (0 <= d)%Z -> (0 < b)%Z ->
+  let g := {| g_lb := IZR a / IZR (10 ^ d); g_delta := IZR b / IZR (10 ^ d); g_dec := d |} in
+  (forall id t s e, Fm id t s e = C2 id s e * (t * t) + C1 id s e * t + C0 id s e) ->
+  (forall k id xs xof, nth_error calls k = Some (id, xs) -> nth_error xofs k = Some xof ->
+     forall s e, In (s, e) (layout id) -> bcast xs s = Ok (xof s) /\ g_lb g <= xof s) ->
+  forall k id xs xof v gr j s e,
+    nth_error calls k = Some (id, xs) -> nth_error xofs k = Some xof ->
+    nth_error (par_run (RNum erf) g Fm layout None calls) k = Some (Ok (v, gr)) ->
+    nth_error (layout id) j = Some (s, e) ->
+    nth_error v j = Some (Fm id (xof s) s e) /\
+    nth_error gr j = Some (2 * C2 id s e * xof s + C1 id s e).
+Proof.
+  intros erf a b d Fm layout C2 C1 C0 calls xofs Hd Hb g.
+  exact (parabola_history_exact_for_quadratics erf a b d Hd Hb Fm layout C2 C1 C0 calls xofs).
+Qed.
+Print Assumptions C15_parabola_history_exact_for_quadratics.
 
 (* ---- PDFSet lookup by the hash of the rounded grid values (every number system).
    h v = hash(frozenset({name: v}.items())) *)
